@@ -1,9 +1,9 @@
 """C08 - forward schedules are tight and their dates encode the used capacity.  Theorems: Props_C08.v
 (the forward model fills every day from the release day to the last work day, the dates are the
 booked shares of the first / last work day, unlinked leaves are served in WBS order, with balancing
-off removing an isolated task changes nobody else's dates, the oracle c08_b means the statement and
+off removing an unrelated set of tasks (isolated leaf, linked cluster, whole subtree) changes nobody else's dates, the oracle c08_b means the statement and
 the model's own output passes it).  The independence clause is also run on the implementation itself
-(pairs of WBSs with / without an extra isolated task).  Tie: the verified oracle c08_b evaluated on
+(pairs of WBSs with / without an extra unrelated group of tasks).  Tie: the verified oracle c08_b evaluated on
 the schedule the implementation returns; C08 is also the property that ties the exact dates and the
 order of the usage rows to the deterministic model, so a disagreement on dates or rows is a broken tie
 of this property.  The numbering convention the order theorem assumes (c08_pre_code: members first,
@@ -42,8 +42,9 @@ def check_numbering(ctx, kept, codes):
 
 
 def with_extra_task(rng, case):
-    """(A, B): B = the case with balancing off; A = B plus one task that has nothing to do with anybody
-    (top-level, no children, no links) inserted at a random position, competing for an existing resource"""
+    """(A, B, ids): B = the case with balancing off; A = B plus an UNRELATED group of tasks - nothing links it with
+    anybody else - inserted at a random position and competing for existing resources: one top-level leaf, or two
+    or three top-level leaves linked among themselves, or a summary with children (and a link inside it)"""
     b = copy.deepcopy(case)
     b['balance'] = False
     b['link_via_succ'] = False
@@ -52,13 +53,32 @@ def with_extra_task(rng, case):
     n = len(a['tasks'])
     pos = rng.randint(0, n)
     names = [t['resource'] for t in a['tasks']] or ['a']
-    extra = sc.T(9000 + rng.randint(0, 99), resource=rng.choice(names), est=rng.choice([8, 16, 64, 100, 320]))
+    mk = lambda parent: sc.T(9000 + len(block) * 100 + rng.randint(0, 99), parent, resource=rng.choice(names),
+                             est=rng.choice([8, 16, 64, 100, 320]))
+    block, links = [], []
+    shape = rng.choice(['leaf', 'leaf', 'chain', 'chain', 'subtree', 'subtree'])
+    if shape == 'leaf':
+        block.append(mk(None))
+    elif shape == 'chain':
+        for _ in range(rng.randint(2, 3)):
+            block.append(mk(None))
+        for i in range(len(block) - 1):
+            x, y = (i, i + 1) if rng.random() < 0.7 else (i + 1, i)
+            links.append([['t', pos + x], ['t', pos + y]])
+    else:
+        block.append(mk(None))
+        for _ in range(rng.randint(1, 3)):
+            block.append(mk(pos))
+        if len(block) > 2 and rng.random() < 0.6:
+            links.append([['t', pos + 1], ['t', pos + 2]])
+        if rng.random() < 0.4:
+            block.append(mk(pos + 1))               # a third level
     for t in a['tasks']:
         if t['parent'] is not None and t['parent'] >= pos:
-            t['parent'] += 1
-    a['tasks'].insert(pos, extra)
-    a['links'] = [[[k, i + 1 if k == 't' and i >= pos else i] for k, i in l] for l in a['links']]
-    return a, b, extra['id']
+            t['parent'] += len(block)
+    a['tasks'][pos:pos] = block
+    a['links'] = [[[k, i + len(block) if k == 't' and i >= pos else i] for k, i in l] for l in a['links']] + links
+    return a, b, [t['id'] for t in block]
 
 
 def dates_by_id(out):
@@ -84,10 +104,10 @@ def check_independence(ctx, kept, codes):
         compared += 1
         tasks_compared += len(db)
         diff = [i for i in db if da.get(i) != db[i]]
-        if diff or set(da) != set(db) | {xid}:
+        if diff or set(da) != set(db) | set(xid):
             ctx.failure('C08/fwd/independence',
-                        'balancing off: removing an isolated task changed the dates of tasks %r' % diff,
-                        {'case': a, 'without_task_id': xid, 'with': da, 'without': db})
+                        'balancing off: removing an unrelated group of tasks %r changed the dates of tasks %r' % (xid, diff),
+                        {'case': a, 'without_task_ids': xid, 'with': da, 'without': db})
     ctx.coverage['independence_pairs_compared'] = compared
     ctx.coverage['independence_tasks_compared'] = tasks_compared
 
@@ -99,9 +119,10 @@ def run(ctx):
     ctx.assumptions += [
         'C08: the clock is frozen during one calc (the runner replaces datetime.now); the theorems about the encoding of '
         'the dates hold in the model for every clock, the oracle checks them only when clock <= project start',
-        'C08: the independence clause (balancing off) is a theorem about the model for the removal of an isolated task '
-        '(top-level leaf without links; C08_indep); on the implementation it is tested directly (the same WBS with and '
-        'without an extra isolated task, independence_pairs_compared) and through the exact comparison with the model',
+        'C08: the independence clause (balancing off) is a theorem about the model for the removal of any unrelated set of '
+        'tasks (closed under hierarchy and links; C08_indep_set, C08_indep for one isolated task); on the implementation it is '
+        'tested directly (the same WBS with and without an extra unrelated leaf / linked chain / subtree, '
+        'independence_pairs_compared) and through the exact comparison with the model',
     ]
 
 
